@@ -47,7 +47,7 @@ def reqValue (normQ : Str → Str → Str) (reqH : Header) (field : Str) : Str :
 
 /-- normalizeVaryHeaderSeq2 collected into a map (sorted by field name) -/
 def normalizeVary (normQ : Str → Str → Str) (vary : Str) (reqH : Header) : List (Str × Str) :=
-  let m := (trimmedCSVCanonical vary).foldl (fun m n => ainsert n (reqValue normQ reqH n) m) []
+  let m := ((fieldNames vary).map canonicalHeaderKey).foldl (fun m n => ainsert n (reqValue normQ reqH n) m) []
   sortBy (fun a b => strLe a.1 b.1) m
 
 /-! ### FNV-64a -/
@@ -69,7 +69,7 @@ def makeVaryKeyWith (hash : Str → Nat) (urlKey : Str) (resolved : List (Str ×
 def makeVaryKey := makeVaryKeyWith fnv64a
 
 /-- varyHasWildcard -/
-def varyHasWildcard (vary : Str) : Bool := (trimmedCSV vary).contains ['*']
+def varyHasWildcard (vary : Str) : Bool := (fieldNames vary).contains ['*']
 
 def timeCmpLe (a b : Option Int) : Bool := (a.getD zeroTimeNs) ≤ (b.getD zeroTimeNs)
 
